@@ -15,6 +15,7 @@ def main():
   names = sys.argv[2:]
   muts = json.load(open(os.path.join(HERE, 'mutants', pid + '.json')))
   missed = 0
+  results = []
   for m in muts:
     if names and m['name'] not in names:
       continue
@@ -31,13 +32,20 @@ def main():
     dt = time.time() - t0
     viol = [l for l in r.stdout.splitlines() if l.startswith('VIOLATION')]
     failing = sorted(set(l.split()[2].rstrip(':') for l in r.stdout.splitlines() if l.strip().startswith('failing sub-check')))
+    results.append({'name': m['name'], 'caught': bool(r.returncode == 1 and viol), 'by': failing,
+                    'wall_s': round(dt), 'note': m.get('note', '')})
     if r.returncode == 1 and viol:
-      print(f'caught  {pid} {m["name"]:40s} {dt:5.0f}s  by {",".join(failing)}')
+      print(f'caught  {pid} {m["name"]:40s} {dt:5.0f}s  by {",".join(failing)}', flush=True)
     else:
       missed += 1
       print(f'MISSED  {pid} {m["name"]:40s} {dt:5.0f}s  rc={r.returncode}')
       if r.returncode not in (0, 1):
         print(r.stdout[-1500:], r.stderr[-1500:])
+  if not names:   # a complete run: keep the record
+    os.makedirs(os.path.join(HERE, 'mutants', 'results'), exist_ok=True)
+    json.dump({'property': pid, 'tier': 'quick', 'seed': int(os.environ.get('VERIF_SEED', '1')),
+               'caught': sum(r['caught'] for r in results), 'total': len(results), 'mutants': results},
+              open(os.path.join(HERE, 'mutants', 'results', pid + '.json'), 'w'), indent=1)
   return 1 if missed else 0
 
 if __name__ == '__main__':
